@@ -303,6 +303,17 @@ mod derived {
 			x: Option<bool>,
 		},
 	}
+	/// occupies memory, encodes to nothing
+	#[derive(Encode, Decode, Clone, Debug, PartialEq, Default)]
+	pub struct AllSkip {
+		#[codec(skip)]
+		pub a: u64,
+	}
+	impl Corpus for AllSkip {
+		fn corpus() -> Vec<Self> {
+			vec![AllSkip { a: 0 }]
+		}
+	}
 	impl Corpus for DS {
 		fn corpus() -> Vec<Self> {
 			vec![
@@ -372,7 +383,14 @@ fn digest_from_bytes<T: Corpus + Encode + Decode>(name: &str) {
 	println!("from_bytes:{}\t{:016x}", name, h.0);
 }
 
+/// A configuration in which some decode panics must still produce a comparable line for that type.
 fn digest<T: Corpus + Encode + Decode>(name: &str) {
+	if std::panic::catch_unwind(|| digest_inner::<T>(name)).is_err() {
+		println!("{}\tpanicked", name);
+	}
+}
+
+fn digest_inner<T: Corpus + Encode + Decode>(name: &str) {
 	let mut h = Fnv::new();
 	for v in T::corpus() {
 		let e = v.encode();
@@ -393,6 +411,33 @@ fn digest<T: Corpus + Encode + Decode>(name: &str) {
 				h.bytes(&((x.len() - s.len()) as u64).to_le_bytes());
 			},
 			Err(_) => h.byte(0),
+		}
+	}
+	// single-byte deviations of every corpus encoding (malformed-but-plausible inputs: range checks, tags)
+	for v in T::corpus() {
+		let e = v.encode();
+		if e.len() > 48 {
+			continue;
+		}
+		let mut m = e.clone();
+		for i in 0..e.len() {
+			for x in [0x00u8, 0x01, 0x02, 0x7f, 0x80, 0xff, e[i] ^ 1] {
+				m[i] = x;
+				let mut s = &m[..];
+				match T::decode(&mut s) {
+					Ok(d) => {
+						h.byte(1);
+						h.byte((m.len() - s.len()) as u8);
+						h.bytes(&d.encode());
+					},
+					Err(_) => h.byte(0),
+				}
+			}
+			m[i] = e[i];
+		}
+		// and every truncation
+		for cut in 0..e.len() {
+			h.byte(T::decode(&mut &e[..cut]).is_ok() as u8);
 		}
 	}
 	let mut buf = [0u8; 2];
@@ -433,6 +478,7 @@ macro_rules! d {
 }
 
 fn main() {
+	std::panic::set_hook(Box::new(|_| {}));
 	d!(u8, u16, u32, u64, u128, i8, i16, i32, i64, i128, f32, f64, bool, ());
 	d!(Compact<u8>, Compact<u16>, Compact<u32>, Compact<u64>, Compact<u128>, NonZeroU16, NonZeroI64, OptionBool);
 	d!(Option<u8>, Option<bool>, Option<Option<u16>>, Result<u8, bool>, Result<String, u32>);
@@ -440,7 +486,7 @@ fn main() {
 	d!(VecDeque<u32>, VecDeque<bool>, LinkedList<u8>, BinaryHeap<u8>, BTreeSet<u16>, BTreeMap<u8, u16>, BTreeMap<String, Vec<u8>>);
 	d!([u8; 3], [u32; 2], [bool; 2], [String; 2], (u8, u16, bool), (Compact<u32>, String), String);
 	d!(Box<u32>, Rc<u8>, Arc<String>, Cow<'static, str>, PhantomData<u8>, Duration, Range<u8>, RangeInclusive<u16>);
-	d!(Option<Vec<Option<u8>>>, Box<Vec<Box<u16>>>);
+	d!(Option<Vec<Option<u8>>>, Box<Vec<Box<u16>>>, Vec<Box<()>>, Vec<()>, Vec<Duration>, Option<Duration>, (Duration, u8), Vec<NonZeroU16>, [NonZeroU16; 2], Vec<OptionBool>);
 	#[cfg(feature = "bit-vec")]
 	{
 		use bitvec::prelude::*;
@@ -451,7 +497,7 @@ fn main() {
 	#[cfg(feature = "generic-array")]
 	d!(generic_array::GenericArray<u16, generic_array::typenum::U3>);
 	#[cfg(feature = "derive")]
-	d!(derived::DS, derived::DE, Vec<derived::DE>);
+	d!(derived::DS, derived::DE, Vec<derived::DE>, derived::AllSkip, Vec<derived::AllSkip>, (Vec<derived::AllSkip>, u8), Option<Box<derived::AllSkip>>);
 	#[cfg(feature = "max-encoded-len")]
 	{
 		mel::<u64>("u64");
